@@ -46,7 +46,7 @@ func (p *propC16) Prepare(seed uint64, tier string) int {
 	p.corpus = corpusFrames(8000, false)
 	p.count = 200000
 	if isThorough(tier) {
-		p.count = 5000000
+		p.count = 2000000
 	}
 	return p.count
 }
